@@ -2536,3 +2536,55 @@ func (b *Bounds) boolWays(fn *ssa.Function, want bool, depth int) [][]Fact {
 	}
 	return out
 }
+
+// ShapeOf renders a linear form with every atom replaced by a description of what kind of quantity
+// it is (type, and for call results the callee's name) instead of its SSA name: two goals of the
+// same shape differ only in where they occur. Used to key reviewed allowances independently of
+// function names and positions.
+func ShapeOf(l Lin) string {
+	short := func(t types.Type) string {
+		return types.TypeString(t, func(p *types.Package) string { return p.Name() })
+	}
+	desc := func(t Term) string {
+		var s string
+		switch k := t.K.(type) {
+		case callRes:
+			name := "call"
+			if f := k.C.Common().StaticCallee(); f != nil {
+				if InLib(f) {
+					// library helpers may be renamed: describe the result by its type
+					name = "library call"
+					if sig := f.Signature; sig != nil && k.I < sig.Results().Len() {
+						name = short(sig.Results().At(k.I).Type()) + " from a library call"
+					}
+				} else {
+					name = FnKey(f)
+				}
+			} else if k.C.Common().IsInvoke() {
+				name = "invoke " + k.C.Common().Method.Name()
+			}
+			s = name + "()"
+		case fieldKey:
+			s = "field" + k.Path
+		case ssa.Value:
+			switch k.(type) {
+			case *ssa.Parameter:
+				s = "param " + short(k.Type())
+			default:
+				s = short(k.Type())
+			}
+		default:
+			s = fmt.Sprint(k)
+		}
+		if t.Len {
+			return "len(" + s + ")"
+		}
+		return s
+	}
+	var parts []string
+	for t, c := range l.T {
+		parts = append(parts, fmt.Sprintf("%+d*%s", c, desc(t)))
+	}
+	sort.Strings(parts)
+	return strings.Join(parts, " ") + fmt.Sprintf(" %+d >= 0", l.C)
+}
